@@ -295,7 +295,7 @@ def main():
         "wall_s": round(wall, 2),
         "violations": len(lines),
     }
-    if not args.no_lean:
+    if not args.no_lean and os.environ.get("VERIF_NO_EVIDENCE") != "1":
         os.makedirs(os.path.join(VERIF, "evidence"), exist_ok=True)
         with open(os.path.join(VERIF, "evidence", f"{prop}.json"), "w") as f:
             json.dump(ev, f, indent=1, default=str)
